@@ -225,8 +225,34 @@ impl Host {
             // which any traced task ran is followed by another one
             let before = self.uni.sink.len();
             for c in roots.iter_mut() {
-                effects.extend(c.effects());
-                queue.extend(c.events());
+                // however a command is inspected, it yields the same outputs
+                match self.uni.inspect % 5 {
+                    0 => {
+                        effects.extend(c.effects());
+                        queue.extend(c.events());
+                    }
+                    1 => {
+                        queue.extend(c.events());
+                        effects.extend(c.effects());
+                    }
+                    2 => {
+                        let _ = c.is_done();
+                        effects.extend(c.effects());
+                        queue.extend(c.events());
+                    }
+                    3 => {
+                        effects.extend(c.effects());
+                        effects.extend(c.effects());
+                        queue.extend(c.events());
+                        queue.extend(c.events());
+                    }
+                    _ => {
+                        queue.extend(c.events());
+                        let _ = c.is_done();
+                        effects.extend(c.effects());
+                        let _ = c.is_done();
+                    }
+                }
             }
             if !effects.is_empty() || self.uni.sink.len() != before {
                 progressed = true;
@@ -381,6 +407,29 @@ impl Host {
         let Inner::Byte(b) = &self.inner else { return Err("driver error: raw bytes need a byte host".into()) };
         Ok(b.respond_bytes(id, bytes)?.is_ok())
     }
+    /// hosts that hold the command objects: which of them still exist (a stream host drops a finished one)
+    pub fn commands_held(&self) -> Option<Vec<bool>> {
+        match &self.inner {
+            Inner::Direct { roots, .. } => Some(vec![true; roots.len()]),
+            Inner::Streamed { roots, .. } => Some(roots.iter().map(|(c, _)| c.is_some()).collect()),
+            _ => None,
+        }
+    }
+    /// `Command::spawn` on the `ix`-th command returned by update
+    pub fn late_spawn(&mut self, ix: usize, path: Path, task: Vec<Stmt>) {
+        match &mut self.inner {
+            Inner::Direct { roots, .. } => crate::cruxrt::spawn_on(&mut roots[ix], &self.uni, path, task),
+            Inner::Streamed { roots, .. } => {
+                let flag = roots[ix].1.clone();
+                if let Some(c) = roots[ix].0.as_mut() {
+                    crate::cruxrt::spawn_on(c, &self.uni, path, task);
+                    // the host knows that it has changed the command: it polls it again
+                    flag.0.store(true, std::sync::atomic::Ordering::SeqCst);
+                }
+            }
+            _ => {}
+        }
+    }
     pub fn is_json(&self) -> bool {
         matches!(self.inner, Inner::Byte(Byte::Json(_)))
     }
@@ -450,6 +499,7 @@ pub struct CaseInfo {
     pub follow_ups: usize,
     pub used_retaining_exemption: u64,
     pub used_legacy_exemption: u64,
+    pub late_spawns: usize,
     pub spurious_polls: u64,
     pub id_reused: bool,
     pub out_of_order: bool,
@@ -691,6 +741,20 @@ pub fn run_case(u: &Universe, cfg: &CaseCfg) -> Result<CaseInfo, CaseFail> {
                     host.drop_request(&path);
                     open.remove(&path);
                     // a drop is not a call into the core: its consequences surface at the next call
+                    host.send(Event::Noop)?
+                }
+                Act::SpawnOn(c, body) => {
+                    let Some(held) = host.commands_held() else { return Err(String::new()) };
+                    let ok = reference.late_spawn_targets();
+                    let cands: Vec<usize> = (0..held.len().min(ok.len())).filter(|i| held[*i] && ok[*i]).collect();
+                    if cands.is_empty() {
+                        return Err(String::new());
+                    }
+                    let ix = cands[pick(c, cands.len())];
+                    info.late_spawns += 1;
+                    let path = vec![9000 + info.late_spawns as u16];
+                    sink.push(Tr::LateSpawn(ix, path.clone(), body.clone()));
+                    host.late_spawn(ix, path, body.clone());
                     host.send(Event::Noop)?
                 }
                 Act::AbortCmd(c) => {
